@@ -7,7 +7,7 @@ from fractions import Fraction as F
 
 import numpy as np
 
-from mc.util import call, call_w, raised, pick_frames
+from mc.util import call, call_w, raised, pick_frames, array_args, array_args_unchanged
 from models import gridref as G
 
 ID = "C14"
@@ -36,6 +36,12 @@ def bounds(tier, seed):
 
 
 def cases(tier, seed):
+    """Every fifth rolling-window case (rotating with the seed) passes region / shape / spacing as numpy arrays (purity checked)."""
+    for i, c in enumerate(_cases(tier, seed)):
+        yield dict(c, args="ndarray") if (i + seed) % 5 == 0 and c["kind"] == "roll" else c
+
+
+def _cases(tier, seed):
     frames_forms = [(fr, form) for fr in pick_frames(FRAMES, tier, seed) for form in ("1d", "2d", "2d+extra")]
     # other representations of the same cloud: Fortran-ordered 2-D arrays, integer dtype (lattice scaled by 4 so that it is
     # integer valued) for both coordinates or for the easting only
@@ -211,7 +217,12 @@ def run(case, rec):
         kw["region"] = region
     else:
         region = [float(fe.min()), float(fe.max()), float(fn.min()), float(fn.max())]
-    got, wl = call_w(rec, vd.rolling_window, coords, size, **kw)
+    if case.get("args") == "ndarray":
+        kw_a, snap = array_args(kw)
+        got, wl = call_w(rec, vd.rolling_window, coords, size, **kw_a)
+        rec.check(array_args_unchanged(kw_a, snap), "rolling_window modified an argument array: %r -> %r" % ({k: v[0].tolist() for k, v in snap.items()}, {k: kw_a[k].tolist() for k in snap}))
+    else:
+        got, wl = call_w(rec, vd.rolling_window, coords, size, **kw)
     minw = min(region[1] - region[0], region[3] - region[2])
     if minw < size:
         rec.trivial = True
